@@ -3,17 +3,22 @@
 
 Virtual tyme in units of 1/8 s (`Nat`; the correspondence uses tymes that are exact in binary floating point).
 One connection: the remoter's tymer (`start`, `stop`), the remoter's `tymeout` (0 = never; set to 0 by the HTTP
-layer once a persistent request has been parsed), what has arrived on the socket since the last service.
+layer once a persistent request has been parsed), what has arrived on the socket since the last service, how many bytes
+are queued for sending (`txlen`) and how many the socket takes per `send` (`cap`, 0 = would block).
 `svc` is one `http.Server.service()` as far as this connection is concerned, in the code's order:
 `serviceConnects` (idle check: `ix.tymeout > 0.0 and ix.tymer.expired` → close) → `serviceReceivesAllIx`
 (every received chunk calls `refresh()` = tymer started at the current tyme with the same duration) → `serviceReqs`
-(a complete persistent request sets `remoter.tymeout = 0.0`).
+(a complete persistent request sets `remoter.tymeout = 0.0`) → `serviceReps` (a complete request queues the response;
+a non-persistent connection whose response has left is closed by the HTTP layer) → `serviceSendsAllIx`
+(a send that takes at least one byte calls `refresh()`).
+`wind t` is `server.wind(tymth)` onto a tymist whose tyme is `t`: every remoter's tymer restarts there.
 -/
 namespace Hio.Idle
 
 inductive Arr where
   | data   -- bytes of a request that is not complete yet
   | req    -- a complete persistent (HTTP/1.1) request
+  | req10  -- a complete non-persistent (HTTP/1.0) request
 deriving DecidableEq, Repr
 
 structure IC where
@@ -23,28 +28,67 @@ structure IC where
   tymeout : Nat
   isOpen : Bool := true
   inbox : List Arr := []
+  /-- bytes queued in `remoter.txbs` -/
+  txlen : Nat := 0
+  /-- bytes the socket takes per `send` call (0 = EAGAIN) -/
+  cap : Nat := 1073741824
+  /-- length of the response the application produces for one request -/
+  resp : Nat := 0
+  /-- a non-persistent response has been produced: the HTTP layer closes the connection once it has left -/
+  closing : Bool := false
+  /-- a request head is under way (so the next complete request is the HTTP/1.1 one that was started) -/
+  inhead : Bool := false
+  /-- ghost: closed by the idle check (as opposed to the HTTP layer finishing a non-persistent exchange) -/
+  idleClosed : Bool := false
 deriving Repr
 
 /-- a connection accepted at tyme `t` by a server configured with `tymeout` -/
-def accept (t tymeout : Nat) : IC := { now := t, start := t, stop := t + tymeout, tymeout := tymeout }
+def accept (t tymeout resp : Nat) : IC := { now := t, start := t, stop := t + tymeout, tymeout := tymeout, resp := resp }
 
 def expired (c : IC) : Bool := c.tymeout > 0 && c.now ≥ c.stop
 
+/-- `refresh()`: `tymer.start()` — from now, same duration -/
+def refresh (c : IC) : IC := { c with start := c.now, stop := c.now + (c.stop - c.start) }
+
+def hasReq (l : List Arr) : Bool := l.contains .req || l.contains .req10
+
+/-- receive + parse + produce the response -/
+def intake (c : IC) : IC :=
+  if c.inbox = [] then c
+  else
+    let c1 := refresh c
+    { c1 with tymeout := if c.inbox.contains .req then 0 else c1.tymeout,
+              txlen := c1.txlen + (if hasReq c.inbox then c.resp else 0),
+              closing := c1.closing || c.inbox.contains .req10, inbox := [] }
+
+/-- `serviceSendsAllIx` for this connection -/
+def output (c : IC) : IC :=
+  if 0 < min c.cap c.txlen then refresh { c with txlen := c.txlen - min c.cap c.txlen } else c
+
 def svc (c : IC) : IC :=
   if !c.isOpen then c
-  else if expired c then { c with isOpen := false }
-  else if c.inbox = [] then c
-  else { c with start := c.now, stop := c.now + (c.stop - c.start),
-                tymeout := if c.inbox.contains .req then 0 else c.tymeout, inbox := [] }
+  else if expired c then { c with isOpen := false, idleClosed := true }
+  else
+    let c1 := intake c
+    if c1.closing && c1.txlen == 0 then { c1 with isOpen := false }
+    else output c1
 
 inductive Ev where
-  | tick (d : Nat) | arrive (a : Arr) | svc
+  | tick (d : Nat) | arrive (a : Arr) | svc | wind (t : Nat) | cap (k : Nat)
 deriving Repr
+
+def arrive (c : IC) (a : Arr) : IC :=
+  match a with
+  | .data => { c with inbox := c.inbox ++ [.data], inhead := true }
+  | .req => { c with inbox := c.inbox ++ [.req], inhead := false }
+  | .req10 => { c with inbox := c.inbox ++ [if c.inhead then .req else .req10], inhead := false }
 
 def step (c : IC) : Ev → IC
   | .tick d => { c with now := c.now + d }
-  | .arrive a => if c.isOpen then { c with inbox := c.inbox ++ [a] } else c
+  | .arrive a => if c.isOpen then arrive c a else c
   | .svc => svc c
+  | .wind t => if c.isOpen then { c with now := t, start := t, stop := t + (c.stop - c.start) } else { c with now := t }
+  | .cap k => if c.isOpen then { c with cap := k } else c
 
 def run (c : IC) : List Ev → IC
   | [] => c
@@ -55,44 +99,53 @@ def ticks : List Ev → Nat
   | .tick d :: es => d + ticks es
   | _ :: es => ticks es
 
-def noArrivals : List Ev → Bool
+/-- only ticks and services: nothing arrives, nothing is re-wound, the socket's willingness to take bytes does not change -/
+def quiet : List Ev → Bool
   | [] => true
-  | .arrive _ :: _ => false
-  | _ :: es => noArrivals es
+  | .tick _ :: es => quiet es
+  | .svc :: es => quiet es
+  | _ :: _ => false
+
+/-- no service and no re-wind inside (ticks, arrivals, changes of the socket's send capacity) -/
+def calm : List Ev → Bool
+  | [] => true
+  | .svc :: _ => false
+  | .wind _ :: _ => false
+  | _ :: es => calm es
 
 def hasArrival : List Ev → Bool
   | [] => false
   | .arrive _ :: _ => true
   | _ :: es => hasArrival es
 
-def noSvc : List Ev → Bool
-  | [] => true
-  | .svc :: _ => false
-  | _ :: es => noSvc es
-
 /-! ### the whole server, for the correspondence: several connections, accepted at the first service after they connect -/
 
 structure Srv where
   tymeout : Nat
+  resp : Nat
   now : Nat := 0
   waiting : List Nat := []              -- addresses connected but not yet accepted
   conns : List (Nat × IC) := []         -- accepted, in acceptance order
 deriving Repr
 
 inductive SEv where
-  | conn (ca : Nat) | tick (d : Nat) | data (ca : Nat) | req (ca : Nat) | svc
+  | conn (ca : Nat) | tick (d : Nat) | data (ca : Nat) | req (ca : Nat) | req10 (ca : Nat) | cap (ca k : Nat)
+  | wind (t : Nat) | svc
 deriving Repr
 
-def arriveAt (ca : Nat) (a : Arr) (cs : List (Nat × IC)) : List (Nat × IC) :=
-  cs.map fun (k, c) => if k = ca then (k, step c (.arrive a)) else (k, c)
+def onConn (ca : Nat) (e : Ev) (cs : List (Nat × IC)) : List (Nat × IC) :=
+  cs.map fun (k, c) => if k = ca then (k, step c e) else (k, c)
 
 def Srv.step (s : Srv) : SEv → Srv
   | .conn ca => { s with waiting := s.waiting ++ [ca] }
   | .tick d => { s with now := s.now + d, conns := s.conns.map fun (k, c) => (k, Idle.step c (.tick d)) }
-  | .data ca => { s with conns := arriveAt ca .data s.conns }
-  | .req ca => { s with conns := arriveAt ca .req s.conns }
+  | .data ca => { s with conns := onConn ca (.arrive .data) s.conns }
+  | .req ca => { s with conns := onConn ca (.arrive .req) s.conns }
+  | .req10 ca => { s with conns := onConn ca (.arrive .req10) s.conns }
+  | .cap ca k => { s with conns := onConn ca (.cap k) s.conns }
+  | .wind t => { s with now := t, conns := s.conns.map fun (k, c) => (k, Idle.step c (.wind t)) }
   | .svc =>
-    let fresh := s.waiting.map fun ca => (ca, accept s.now s.tymeout)
+    let fresh := s.waiting.map fun ca => (ca, accept s.now s.tymeout s.resp)
     { s with waiting := [], conns := (s.conns ++ fresh).map fun (k, c) => (k, Idle.svc c) }
 
 end Hio.Idle
